@@ -137,5 +137,4 @@ func utxoCacheRemove(c *q.Ctx) {
 	keep := func(g q.Cond) bool { return strings.Contains(g.Canon, "p0.A") }
 	inAll := []q.Cond{{Canon: "has(p0.All,p1)", Sense: true}, {Canon: "(nil == p0.All[p1][p2])", Sense: false}}
 	c.Effect(rm, q.Eff{Spec: "delete", Arg: 0, Glob: "p0.All[p1]", Req: inAll, Exact: true, Keep: keep, Why: "the entry leaves All exactly when it is in All (what Available says does not matter)", Rule: "K6"})
-	c.Effect(rm, q.Eff{Spec: "delete", Arg: 0, Glob: "p0.Available[p1]", Req: []q.Cond{{Canon: "has(p0.Available,p1)", Sense: true}}, Why: "and leaves Available if it is there", Rule: "K6"})
 }
